@@ -6,6 +6,7 @@ package geometry
 
 import (
 	"math"
+	"sort"
 )
 
 const complexRingMinPoints = 16
@@ -96,6 +97,104 @@ func ringIntersectsPoint(ring Ring, point Point, allowOnEdge bool) ringResult {
 // 	return false
 // }
 
+// ringSegmentSides reports whether a piece of the segment is strictly inside
+// of the ring, and whether a piece is strictly outside of the ring. The resA
+// and resB params are the results of ringContainsPoint, with allowOnEdge, for
+// the seg A and seg B points.
+//
+// The segment is split at every ring point that lies on it. A piece between
+// two such contacts cannot touch the ring, other than by running along a ring
+// segment, unless a ring segment crosses it outright. So every piece is on one
+// side of the ring, which is the side of its middle.
+func ringSegmentSides(ring Ring, seg Segment, resA, resB ringResult) (
+	inside, outside bool,
+) {
+	// side of a point: -1 outside, 0 on the ring, +1 inside
+	side := func(res ringResult) int {
+		if !res.hit {
+			return -1
+		}
+		if res.idx == -1 {
+			return 1
+		}
+		return 0
+	}
+	mark := func(side int) {
+		if side > 0 {
+			inside = true
+		} else if side < 0 {
+			outside = true
+		}
+	}
+	sideA, sideB := side(resA), side(resB)
+	mark(sideA)
+	mark(sideB)
+	if seg.A == seg.B || (inside && outside) {
+		return inside, outside
+	}
+	var contacts []Point
+	var crosses bool
+	ring.Search(seg.Rect(), func(seg2 Segment, index int) bool {
+		aOn := seg.Raycast(seg2.A).On
+		bOn := seg.Raycast(seg2.B).On
+		if aOn {
+			contacts = append(contacts, seg2.A)
+		}
+		if bOn {
+			contacts = append(contacts, seg2.B)
+		}
+		if !aOn && !bOn && seg.IntersectsSegment(seg2) &&
+			!seg2.Raycast(seg.A).On && !seg2.Raycast(seg.B).On {
+			// the segments cross at a point that is inside of both
+			crosses = true
+			return false
+		}
+		return true
+	})
+	if crosses {
+		return true, true
+	}
+	// order the contacts from seg A to seg B
+	dx, dy := seg.B.X-seg.A.X, seg.B.Y-seg.A.Y
+	along := func(p Point) float64 {
+		return (p.X-seg.A.X)*dx + (p.Y-seg.A.Y)*dy
+	}
+	sort.Slice(contacts, func(i, j int) bool {
+		return along(contacts[i]) < along(contacts[j])
+	})
+	contacts = append(contacts, seg.B)
+	prev, prevSide := seg.A, sideA
+	for i, next := range contacts {
+		nextSide := 0
+		if i == len(contacts)-1 {
+			nextSide = sideB
+		}
+		if next != prev {
+			if prevSide != 0 {
+				mark(prevSide)
+			} else if nextSide != 0 {
+				mark(nextSide)
+			} else {
+				// both ends of the piece are on the ring. The piece either
+				// runs along a ring segment or its middle tells the side.
+				piece := Segment{prev, next}
+				var onEdge bool
+				ring.Search(piece.Rect(), func(seg2 Segment, index int) bool {
+					onEdge = seg2.ContainsSegment(piece)
+					return !onEdge
+				})
+				if !onEdge {
+					mark(side(ringContainsPoint(ring, Point{
+						(prev.X + next.X) / 2, (prev.Y + next.Y) / 2,
+					}, true)))
+				}
+			}
+		}
+		prev, prevSide = next, nextSide
+	}
+	return inside, outside
+}
+
 func ringContainsSegment(ring Ring, seg Segment, allowOnEdge bool) bool {
 	if !ring.Rect().ContainsPoint(seg.A) || !ring.Rect().ContainsPoint(seg.B) { // Optimization
 		return false
@@ -123,108 +222,10 @@ func ringContainsSegment(ring Ring, seg Segment, allowOnEdge bool) bool {
 	// The ring is concave so it's possible that the segment crosses over the
 	// edge of the ring.
 	if allowOnEdge {
-		// do some logic around seg points that are on the edge of the ring.
-		if resA.idx != -1 {
-			// seg A is on a ring segment
-			if resB.idx != -1 {
-				// seg B is on a ring segment
-				if resB.idx == resA.idx {
-					// case (3)
-					// seg A and B share the same ring segment, so it must be
-					// on the inside.
-					return true
-				}
-				// case (1)
-				// seg A and seg B are on different segments.
-				// determine if the space that the seg passes over is inside or
-				// outside of the ring. To do so we create a ring from the two
-				// ring segments and check if that ring winding order matches
-				// the winding order of the ring.
-				// -- create a ring
-
-				rSegA := ring.SegmentAt(resA.idx)
-				rSegB := ring.SegmentAt(resB.idx)
-				if rSegA.A == seg.A || rSegA.B == seg.A ||
-					rSegB.A == seg.A || rSegB.B == seg.A ||
-					rSegA.A == seg.B || rSegA.B == seg.B ||
-					rSegB.A == seg.B || rSegB.B == seg.B {
-					return true
-				}
-
-				// fix the order of the
-				if resB.idx < resA.idx {
-					rSegA, rSegB = rSegB, rSegA
-				}
-
-				pts := [5]Point{rSegA.A, rSegA.B, rSegB.A, rSegB.B, rSegA.A}
-				// -- calc winding order
-				var cwc float64
-				for i := 0; i < len(pts)-1; i++ {
-					a, b := pts[i], pts[i+1]
-					cwc += (b.X - a.X) * (b.Y + a.Y)
-				}
-				clockwise := cwc > 0
-				if clockwise != ring.Clockwise() {
-					// -- on the outside
-					return false
-				}
-				// the passover space is on the inside of the ring.
-				// check if seg intersects any ring segments where A and B are
-				// not on.
-				var intersects bool
-				ring.Search(seg.Rect(), func(seg2 Segment, index int) bool {
-					if seg.IntersectsSegment(seg2) {
-						if !seg2.Raycast(seg.A).On && !seg2.Raycast(seg.B).On {
-							intersects = true
-							return false
-						}
-					}
-					return true
-				})
-				return !intersects
-			}
-			// case (4)
-			// seg A is on a ring segment, but seg B is not.
-			// check if seg intersects any ring segments where A is not on.
-			var intersects bool
-			ring.Search(seg.Rect(), func(seg2 Segment, index int) bool {
-				if seg.IntersectsSegment(seg2) {
-					if !seg2.Raycast(seg.A).On {
-						intersects = true
-						return false
-					}
-				}
-				return true
-			})
-			return !intersects
-		} else if resB.idx != -1 {
-			// case (2)
-			// seg B is on a ring segment, but seg A is not.
-			// check if seg intersects any ring segments where B is not on.
-			var intersects bool
-			ring.Search(seg.Rect(), func(seg2 Segment, index int) bool {
-				if seg.IntersectsSegment(seg2) {
-					if !seg2.Raycast(seg.B).On {
-						intersects = true
-						return false
-					}
-				}
-				return true
-			})
-			return !intersects
-		}
-		// case (5) (15)
-		var intersects bool
-		ring.Search(seg.Rect(), func(seg2 Segment, index int) bool {
-			if seg.IntersectsSegment(seg2) {
-				if !seg.Raycast(seg2.A).On && !seg.Raycast(seg2.B).On {
-					intersects = true
-					return false
-				}
-			}
-			return true
-		})
-		return !intersects
+		// both seg points are inside or on the edge of the ring, so the
+		// segment is contained unless a piece of it is on the outside.
+		_, outside := ringSegmentSides(ring, seg, resA, resB)
+		return !outside
 	}
 
 	// allowOnEdge is false. (not allow on edge)
